@@ -1,4 +1,4 @@
-* exhaustive: chain length <= 2 (heights 0 and 1), 4 shapes per head, 1 block verified ahead
+\* exhaustive: chain length <= 2, 4 shapes per head, 2 blocks verified ahead (competing successors)
 CONSTANTS
   Versions <- MCVersions
   Committed <- MCCommitted
@@ -10,7 +10,7 @@ CONSTANTS
   Targets <- MCTargets
   EmptyDiffShapes <- MCEmptyDiffShapes
   ClassShapes <- MCClassShapes
-  MaxPending = 1
+  MaxPending = 2
   SuccessionChecked = TRUE
   RootChecked = TRUE
   RootCheckedOnEmptyDiff = TRUE
